@@ -14,7 +14,8 @@
 From Coq Require Import ZArith List Bool String Arith Permutation.
 From Galene Require Import Generated.Guards Model.Signal Model.SignalUsers
   Proofs.SignalUsersBase Proofs.SignalUsersInv Proofs.SignalUsersLeave Proofs.SignalUsersJoin
-  Proofs.SignalUsersThms Proofs.SignalUsersDeliver Proofs.SignalUsersC14.
+  Proofs.SignalUsersThms Proofs.SignalUsersDeliver Proofs.SignalUsersC14
+  Generated.Locks Proofs.SignalUsersAtomic.
 Import ListNotations.
 Open Scope string_scope.
 Open Scope list_scope.
@@ -162,6 +163,26 @@ Theorem C14_no_cross_group : forall ops w s,
     (recording w g = true /\ (i, (u, p)) = (rec_id, rec_entry)).
 Proof. exact c14_no_cross_group. Qed.
 Print Assumptions C14_no_cross_group.
+
+(* The step granularity the theorems above rest on, as a fact about the CODE
+   (the lock table regenerated from /repo on every run): a join (snapshot of
+   the members, admission, insertion, announcements both ways) and a
+   departure are each ONE critical section of the group -- no function
+   releases a mutex and takes it again, and Group.clients is read and
+   written by AddClient and DelClient only under Group.mu.  (AddClient
+   unlocking the group around the credential check, and then announcing to
+   the member list it read before, breaks the first conjunct.) *)
+Theorem C14_membership_steps_atomic :
+  split_critical_sections = [] /\
+  (forall kind fn pos held required inst,
+     In ("group.Group.clients", kind, fn, pos, held, required, inst) accesses ->
+     required = "group.Group.mu" /\ In "group.Group.mu" held) /\
+  existsb (clients_access "read" "group.AddClient") accesses = true /\
+  existsb (clients_access "write" "group.AddClient") accesses = true /\
+  existsb (clients_access "read" "group.DelClient") accesses = true /\
+  existsb (clients_access "write" "group.DelClient") accesses = true.
+Proof. exact membership_steps_atomic. Qed.
+Print Assumptions C14_membership_steps_atomic.
 
 (* ------------------------------------------------------------------ *)
 (* Non-vacuity.  [ex_ops]: two groups, four connections; an operator and two
